@@ -29,9 +29,22 @@ def sectionsOut (c : Config.Sections) : String :=
   listOut ((c.mergeSort (fun a b => decide (a.1 ≤ b.1))).map fun (s, kv) =>
     hexOut s ++ "=" ++ "+".intercalate ((sortPairs kv).map fun (k, v) => hexOut k ++ ":" ++ hexOut v))
 
+/-- order-insensitive reading of a configuration file (`Config.Write` emits sections and keys in Go's map order):
+    the non-empty lines are grouped into blocks, each opened by a line that starts with `[`; the lines of a block are
+    sorted, the blocks are sorted; both sides of the comparison compute this same function of the raw bytes -/
+def cfgBlocks (raw : Bytes) : List (Bytes × List Bytes) :=
+  let step (acc : List (Bytes × List Bytes)) (l : Bytes) : List (Bytes × List Bytes) :=
+    if l.head? == some 91 then (l, []) :: acc
+    else match acc with
+      | (h, ls) :: rest => (h, l :: ls) :: rest
+      | [] => [([], [l])]
+  (((Bytes.split1 10 raw).filter (· ≠ [])).foldl step []).map fun (h, ls) => (h, ls.mergeSort (fun a b => decide (a ≤ b)))
+
 def cfgOut : Option Bytes → String
   | none => "none"
-  | some raw => match Config.parse raw with | some c => sectionsOut c | none => "unloadable"
+  | some raw =>
+    listOut (((cfgBlocks raw).mergeSort (fun a b => decide (a.1 ≤ b.1 ∧ (a.1 = b.1 → a.2 ≤ b.2)))).map fun (h, ls) =>
+      hexOut h ++ "=" ++ "+".intercalate (ls.map hexOut))
 
 def entryIn (s : String) : Entry :=
   match s.splitOn ":" with
